@@ -679,7 +679,7 @@ def rule_fmtwrite(ctx):
     entry = "scc::cli::fmt::exec"
     fx.fn(entry)
     cg = callgraph.get(ctx)
-    zone = cg.reachable([entry], crates={"scc", "driver"})
+    zone = cg.reachable([fx.fn(entry)["key"]], crates={"scc", "driver"})
     n = 0
     for k in sorted(zone):
         f = fx.fns[k]
